@@ -124,6 +124,14 @@ def scheduled_token_is_released_or_unscheduled(ctx):
     catches RequestExceededException from consume(_, token), every exit reachable after
     that handler passes a later consume with the same token that returns normally, or
     a call that removes the token (cancel_scheduled_consumption)."""
+    # each stream identifies its own consumption requests: a fresh RequestToken per BandwidthLimitedStream, never shared
+    # (the scheduler keys waiting requests by token: two streams with one token release / unschedule each other)
+    bl = ctx.cls('bandwidth.BandwidthLimitedStream')
+    tv = [(fn, v) for fn, v in bl.init_attrs.get('_request_token', [])]
+    ok_tok = len(tv) == 1 and tv[0][0].name == '__init__' and isinstance(tv[0][1], ast.Call) and norm(tv[0][1].func) == 'RequestToken' and not tv[0][1].args \
+        and not q.guards(q_stmt_of(tv[0][1]))
+    ctx.ob(bl.methods['__init__'], 'self._request_token = RequestToken() (one fresh token per stream)', ok_tok,
+           f"the stream's token must be its own: {[norm(v) for _, v in tv]}")
     n = 0
     for f in ctx.p.all_functions():
         hs = [h for h in own_nodes(f.node) if isinstance(h, ast.ExceptHandler) and h.type is not None and 'RequestExceededException' in norm(h.type)]
@@ -294,3 +302,8 @@ def clock_is_read_under_the_bucket_lock(ctx):
              and any(isinstance(a, ast.Name) and a.id == tn for a in c.args)]
     ctx.ob(f, f'{tn} (the locked reading) is the time passed on', tn is not None and len(users) >= 2 and len(q.local_defs(f, tn)) == 1,
            'a second/other clock value would make projected and recorded rates disagree')
+
+
+def q_stmt_of(node):
+    from ..ir import enclosing_stmt
+    return enclosing_stmt(node)
